@@ -117,6 +117,7 @@ def run(ctx):
     # ---------------- (b) gating end to end, JWS
     jws_gate(ctx)
     jwe_gate(ctx)
+    jwe_multi_gate(ctx)
     jwt_gate(ctx)
     none_alg(ctx)
     # ---------------- (c) history
@@ -234,6 +235,72 @@ def jwe_gate(ctx):
                                 ctx.report(f"JWE {op} ({form}) with {named} under allow={allow} ({via}=): {out}",
                                            {"header": hdr, "allow": allow, "via": via, "form": form, "op": op, "out": out},
                                            f"gate-jwe-{op}:{'refused' if want else 'used-or-wrong-error'}")
+
+
+def jwe_multi_gate(ctx):
+    """General JSON JWE with several recipients of mixed algorithms, decrypted under verify_all_recipients on AND off:
+    a recipient entry naming a disallowed / unknown alg (one of the genuine recipients, or an entry appended by an
+    attacker) makes the call fail with UnsupportedAlgorithmError in both modes - being lenient about recipients that
+    cannot be decrypted is not being lenient about the allow-list."""
+    from joserfc import jwe
+    from joserfc.jwk import KeySet
+    from harness import keys as K
+    rng = ctx.rng
+    pool = [("A128KW", "oct16"), ("A256KW", "oct32"), ("RSA-OAEP", "rsa2048"), ("ECDH-ES+A128KW", "x25519"), ("A192GCMKW", "oct24"),
+            ("RSA1_5", "rsa2048"), ("PBES2-HS256+A128KW", "oct32"), ("ECDH-ES+A192KW", "p384"), ("RSA-OAEP-256", "rsa2048")]
+    all_names = JWE_ALG_NAMES + REC_JWE_ENC + REC_ZIP
+    rec = REC_JWE_ALG + REC_JWE_ENC + REC_ZIP
+    for _ in range(4 if ctx.tier == "quick" else 30):
+        chosen = rng.sample(pool, rng.choice([2, 2, 3]))
+        enc = rng.choice(REC_JWE_ENC)
+        obj = jwe.GeneralJSONEncryption({"enc": enc}, b"plaintext")
+        keys = []
+        for i, (alg, kn) in enumerate(chosen):
+            k = K.key(kn, private=True, kid=f"r{i}")
+            keys.append(k)
+            obj.add_recipient({"alg": alg, "kid": f"r{i}"}, k)
+        jtok = jwe.encrypt_json(obj, None, algorithms=all_names)
+        ks = KeySet(keys)
+        algs = [a for a, _ in chosen]
+        allows = [None, algs + [enc], algs[:1] + [enc], algs[1:] + [enc], algs] + [rng.sample(all_names, rng.randrange(1, 8)) + [enc] for _ in range(2)]
+        variants = [("genuine", jtok)]
+        for extra in ("RSA1_5", "A192KW", "FOO", "dir", "none"):
+            t2 = copy.deepcopy(jtok)
+            t2["recipients"].append({"header": {"alg": extra, "kid": "r0"}})
+            variants.append((f"appended-{extra}", t2))
+            t3 = copy.deepcopy(jtok)
+            t3["recipients"].insert(0, {"header": {"alg": extra, "kid": "r0"}, "encrypted_key": "AAAA"})
+            variants.append((f"prepended-{extra}", t3))
+        for allow in allows:
+            for vname, tokv in variants:
+                named = [r.get("header", {}).get("alg") for r in tokv["recipients"]] + [enc]
+                want = all(usable(n, allow, all_names, rec) for n in named)
+                # recipients are processed in order: with verify_all_recipients on, an injected (undecryptable) entry
+                # that IS allowed fails first with its own decryption error - no claim about the entries after it
+                injected_at = 0 if vname.startswith("prepended") else (len(named) - 2 if vname.startswith("appended") else None)
+                first_bad = next((i for i, n in enumerate(named[:-1]) if not usable(n, allow, all_names, rec)), None)
+                shadowed = usable(enc, allow, all_names, rec) and injected_at is not None and first_bad is not None and injected_at < first_bad
+                for verify_all in (True, False):
+                    if verify_all and shadowed:
+                        continue
+                    for keyarg, kname in ((ks, "keyset"), (keys[0], "first-key")):
+                        if kname == "first-key" and verify_all:
+                            continue    # one key for all recipients: an earlier recipient may fail on the key before a later one is looked at
+                        reg = jwe.JWERegistry(algorithms=allow, verify_all_recipients=verify_all)
+                        try:
+                            r = jwe.decrypt_json(copy.deepcopy(tokv), keyarg, registry=reg)
+                            out = "ok" if r.plaintext == b"plaintext" else "wrong-plaintext"
+                        except Exception as e:  # noqa: BLE001
+                            out = err_name(e)
+                        ctx.count("gate-jwe-multi", (repr(tokv["recipients"])[:200], repr(allow), verify_all, kname, vname), True,
+                                  f"{'all' if verify_all else 'any'}:{vname.split('-')[0]}:{out}")
+                        if not want and out != "UnsupportedAlgorithmError":
+                            ctx.report(f"JWE decrypt_json (verify_all_recipients={verify_all}, {kname}) of recipients {named[:-1]} under allow={allow}: {out}",
+                                       {"token": tokv, "allow": allow, "verify_all_recipients": verify_all, "key": kname, "out": out},
+                                       f"gate-jwe-multi:{'all' if verify_all else 'any'}:{vname.split('-')[0]}")
+                        if want and vname == "genuine" and kname == "keyset" and out != "ok":
+                            ctx.report(f"JWE decrypt_json of allowed recipients {named[:-1]} under allow={allow} failed: {out}",
+                                       {"token": tokv, "allow": allow, "verify_all_recipients": verify_all, "out": out}, "gate-jwe-multi:allowed-refused")
 
 
 def jwt_gate(ctx):
